@@ -330,3 +330,5 @@ def install(it):
     A(r'<tokio::time::Timeout<.*> as (?:std::future|futures)::Future>::poll', m_timeout_poll)
     A(r'tokio::time::sleep', m_sleep)
     A(r'<tokio::time::Sleep as (?:std::future|futures)::Future>::poll', m_sleep_poll)
+    A(r'futures_timer::Delay::new', m_sleep)
+    A(r'<futures_timer::Delay as (?:std::future|futures)::Future>::poll', m_sleep_poll)
